@@ -1,5 +1,6 @@
 import MaestroVerif.Lemmas.ExpandAll
 import MaestroVerif.Lemmas.ExpandDeps
+import MaestroVerif.Lemmas.ExpandNames
 
 /-!
 # The dependency sets of the finished graph (C08)
@@ -294,7 +295,33 @@ structure StagedOK (spec : Spec) (flow : Flow) (s : SS) : Prop where
   keys : ∀ k, s.combos.any (·.1 == k) = true → k ∈ SOURCE :: spec.steps.map (·.name)
   ok : ∀ nm q st, flow.steps.find? (·.1 == nm) = some (q, st) → s.used.any (·.1 == nm) = true →
     DepsOK spec s st ∧
-    ∀ p, (p ∈ depsOf st ∨ p ∈ hubOf st) → p ≠ nm → s.used.any (·.1 == p) = true
+    (∀ p, (p ∈ depsOf st ∨ p ∈ hubOf st) → p ≠ nm → s.used.any (·.1 == p) = true) ∧
+    (∀ p, p ∈ depsOf st → ∀ k, k ∈ getAssoc s.used p → k ∈ getAssoc s.used nm)
+
+/-- the used-parameter set a step is filed with is the one `usedOf` computes from the table it finds -/
+theorem stageStep_usedOf (spec : Spec) (ord : List Str → List Str) (s s' : SS) (st : Step)
+    (h : stageStep spec ord s st = .ok s') : usedOf spec s.used st = .ok (getAssoc s'.used st.name) := by
+  unfold stageStep at h
+  simp only at h
+  split at h
+  · cases h
+  · rename_i used hused
+    split at h
+    · split at h
+      · cases h
+      · rw [place_used h]
+        simp only [getAssoc_setAssoc_self]
+        exact hused
+    · have hkey : (setAssoc s.combos st.name []).any (·.1 == st.name) = true := by
+        rw [any_key_setAssoc]; simp
+      obtain ⟨_, _, b3, _⟩ := rows_node spec ord st used (List.range (nRows spec.params))
+        { s with hub := setAssoc s.hub st.name (sortDedup (hubOf st)),
+                 depends := setAssoc s.depends st.name (sortDedup (depsOf st)),
+                 used := setAssoc s.used st.name used,
+                 combos := setAssoc s.combos st.name [] } s' hkey h
+      rw [b3]
+      simp only [getAssoc_setAssoc_self]
+      exact hused
 
 theorem find_filed {spec : Spec} {flow : Flow} (hfs : FlowSteps spec.steps flow) {nm q : Str} {st : Step}
     (h : flow.steps.find? (·.1 == nm) = some (q, st)) : st ∈ spec.steps ∧ st.name = nm := by
@@ -330,8 +357,14 @@ theorem stagedOK_step (spec : Spec) (hc : NoClash spec) (hx : CrossInj spec)
       rw [hfind] at hfind'
       simp only [Option.some.injEq, Prod.mk.injEq] at hfind'
       obtain ⟨_, rfl⟩ := hfind'
-      refine ⟨d1, fun p hp hne => ?_⟩
-      rw [hukeys, hpar p hp hne]; rfl
+      refine ⟨d1, fun p hp hne => by rw [hukeys, hpar p hp hne]; rfl, ?_⟩
+      intro p hp k hk
+      have hcl := usedOf_closure spec s.used st _ (stageStep_usedOf spec ord s s1 st h) k
+      rw [← hname]
+      by_cases e2 : p = st.name
+      · rw [e2] at hk; exact hk
+      · rw [(d3 p e2).1] at hk
+        exact hcl.mpr (Or.inr (Or.inl ⟨p, hp, hk⟩))
     · have hstaged : s.used.any (·.1 == nm') = true := by
         rw [hukeys] at hstaged'
         rcases Bool.or_eq_true _ _ |>.mp hstaged' with e' | e'
@@ -339,7 +372,7 @@ theorem stagedOK_step (spec : Spec) (hc : NoClash spec) (hx : CrossInj spec)
         · exfalso; apply e
           have : st.name = nm' := by simpa using e'
           rw [← this, hname]
-      obtain ⟨o1, o2⟩ := hJ.ok nm' q' st' hfind' hstaged
+      obtain ⟨o1, o2, o3⟩ := hJ.ok nm' q' st' hfind' hstaged
       have hne_names : st'.name ≠ st.name := by rw [hname', hname]; exact e
       -- a parent of an already staged step is itself staged, so it is not the step staged now
       have hpne : ∀ p, (p ∈ depsOf st' ∨ p ∈ hubOf st') → p ≠ st.name := by
@@ -348,7 +381,13 @@ theorem stagedOK_step (spec : Spec) (hc : NoClash spec) (hx : CrossInj spec)
         · rw [e3, ← hname'] at e2; exact hne_names e2
         · have := o2 p hp e3
           rw [e2, hname, hfresh] at this; cases this
-      refine ⟨?_, fun p hp hne => by rw [hukeys, o2 p hp hne]; rfl⟩
+      refine ⟨?_, fun p hp hne => by rw [hukeys, o2 p hp hne]; rfl, ?_⟩
+      rotate_left
+      · intro p hp k hk
+        rw [(d3 p (hpne p (Or.inl hp))).1] at hk
+        have hnm' : nm' ≠ st.name := by rw [← hname']; exact hne_names
+        rw [(d3 nm' hnm').1]
+        exact o3 p hp k hk
       apply depsOK_transfer spec s s1 st' (d3 _ hne_names).1 ?_
         (fun p hp => (d3 p (hpne p (Or.inl hp))).1) (fun hb hhb => (d3 hb (hpne hb (Or.inr hhb))).2) o1
       intro n hn x
@@ -528,7 +567,8 @@ theorem stageSS_deps_exact (spec : Spec) (hc : NoClash spec) (hx : CrossInj spec
     (hsrc : ∀ st, st ∈ spec.steps → st.name ≠ SOURCE)
     (hnames : (spec.steps.map (·.name)).Nodup)
     {ord : List Str → List Str} (ho : IsPermOracle ord) (sf : SS) (h : stageSS spec ord = .ok sf) :
-    ∀ st, st ∈ spec.steps → DepsOK spec sf st := by
+    ∀ st, st ∈ spec.steps → DepsOK spec sf st ∧
+      ∀ p, p ∈ depsOf st → ∀ k, k ∈ getAssoc sf.used p → k ∈ getAssoc sf.used st.name := by
   have hall := stageSS_all_staged spec ord sf h hsrc
   unfold stageSS at h
   split at h
@@ -582,7 +622,8 @@ theorem stageSS_deps_exact (spec : Spec) (hc : NoClash spec) (hx : CrossInj spec
       have hsame : st' = st := by
         exact nodup_map_inj (·.name) spec.steps hnames st' st h1 hst h2
       subst hsame
-      exact (hJ.ok st'.name q st' hfind (hall st' hst)).1
+      obtain ⟨r1, _, r3⟩ := hJ.ok st'.name q st' hfind (hall st' hst)
+      exact ⟨r1, r3⟩
 
 /-! ### `CrossInj` from the check on the step names -/
 
@@ -627,5 +668,91 @@ theorem crossInj_of_noClashB (spec : Spec) (h : noClashB spec = true) : CrossInj
       · rcases List.prefix_concat_iff.mp hp with e | e
         · exact hne (List.append_cancel_right e).symm
         · exact hpre st2 hst2 st1.name (hmemname st1 hst1) e
+
+/-! ### labels without the name separator: every row is owed the same as its name-sakes -/
+
+/-- no label holds the `.` that joins labels into an instance name -/
+def DotFree (spec : Spec) : Prop :=
+  ∀ (row : Nat), row < nRows spec.params → ∀ (k : Str), '.' ∉ lookup (combo spec.params row).labels k
+
+/-- the same as a check over the table -/
+def dotFreeB (spec : Spec) : Bool :=
+  (List.range (nRows spec.params)).all fun row =>
+    (combo spec.params row).labels.all fun kv => !kv.2.contains '.'
+
+theorem dotFree_of_dotFreeB (spec : Spec) (h : dotFreeB spec = true) : DotFree spec := by
+  intro row hrow k
+  unfold dotFreeB at h
+  have h1 := List.all_eq_true.mp h row (List.mem_range.mpr hrow)
+  unfold lookup
+  cases hf : (combo spec.params row).labels.find? (·.1 == k) with
+  | none => simp
+  | some p =>
+    have := List.all_eq_true.mp h1 p (List.mem_of_find?_eq_some hf)
+    simpa using this
+
+/-- the dependency set of every row's instance is what that very row is owed -/
+def DepsExact (spec : Spec) (s : SS) (st : Step) : Prop :=
+  if (getAssoc s.used st.name).isEmpty then
+    ∀ x, x ∈ getAssoc s.g.deps st.name ↔ Owed s.used s.combos spec st 0 x
+  else
+    ∀ row, row < nRows spec.params →
+      ∀ x, x ∈ getAssoc s.g.deps (instName st.name (getAssoc s.used st.name) (combo spec.params row)) ↔
+        Owed s.used s.combos spec st row x
+
+theorem instName_sub (p : Str) (U used : List Str) (c c' : Combo) (hsub : ∀ k, k ∈ U → k ∈ used)
+    (hl : ∀ k, k ∈ used → lookup c.labels k = lookup c'.labels k) : instName p U c = instName p U c' := by
+  unfold instName
+  split
+  · rfl
+  · congr 1
+    unfold Combo.paramString
+    congr 1
+    apply List.map_congr_left
+    intro k hk
+    exact hl k (hsub k (mem_sortDedup.mp hk))
+
+/-- rows that give a step the same instance name agree on the labels of its used parameters -/
+def NameInj (spec : Spec) : Prop :=
+  ∀ (nm : Str) (used : List Str), used ≠ [] → ∀ row row' : Nat,
+    row < nRows spec.params → row' < nRows spec.params →
+    instName nm used (combo spec.params row') = instName nm used (combo spec.params row) →
+    ∀ k, k ∈ used → lookup (combo spec.params row').labels k = lookup (combo spec.params row).labels k
+
+theorem nameInj_of_dotFree (spec : Spec) (hdot : DotFree spec) : NameInj spec := by
+  intro nm used hu row row' hr hr' hn
+  exact (instName_inj nm used hu (combo spec.params row') (combo spec.params row)
+    (fun k _ => ⟨hdot row' hr' k, hdot row hr k⟩)).mp hn
+
+theorem owed_same_name (U C : AL) (spec : Spec) (hinj : NameInj spec) (st : Step) (used : List Str)
+    (hu : used ≠ []) (hsub : ∀ p, p ∈ depsOf st → ∀ k, k ∈ getAssoc U p → k ∈ used) (row row' : Nat)
+    (hr : row < nRows spec.params) (hr' : row' < nRows spec.params)
+    (hn : instName st.name used (combo spec.params row') = instName st.name used (combo spec.params row))
+    (x : Str) : Owed U C spec st row' x ↔ Owed U C spec st row x := by
+  have hl := hinj st.name used hu row row' hr hr' hn
+  unfold Owed
+  split
+  · rfl
+  · constructor
+    · rintro (⟨p, hp, e⟩ | h)
+      · exact Or.inl ⟨p, hp, by rw [e]; exact instName_sub p _ used _ _ (hsub p hp) hl⟩
+      · exact Or.inr h
+    · rintro (⟨p, hp, e⟩ | h)
+      · exact Or.inl ⟨p, hp, by rw [e]; exact (instName_sub p _ used _ _ (hsub p hp) hl).symm⟩
+      · exact Or.inr h
+
+theorem depsExact_of_ok (spec : Spec) (hdot : NameInj spec) (s : SS) (st : Step) (h : DepsOK spec s st)
+    (hsub : ∀ p, p ∈ depsOf st → ∀ k, k ∈ getAssoc s.used p → k ∈ getAssoc s.used st.name) :
+    DepsExact spec s st := by
+  unfold DepsOK at h
+  unfold DepsExact
+  split
+  · rename_i he; simp only [he, ↓reduceIte] at h; exact h
+  · rename_i he
+    simp only [he] at h
+    intro row hrow x
+    obtain ⟨row', m1, m2, m3⟩ := h row hrow
+    rw [m3 x]
+    exact owed_same_name s.used s.combos spec hdot st _ (by simpa using he) hsub row row' hrow m1 m2 x
 
 end MaestroVerif.Expand
